@@ -174,6 +174,12 @@ def ntt_configs(tier, seed=0):
                 for nblock in (1, 2, 3, ncols):
                     for buf, dstmode in ((False, 'other'), (True, 'src'), (True, 'null')):
                         out.append((cap, n, ncols, nphase, nblock, buf, dstmode, 1))
+    # large sizes (several phases really merge stages, batches are long): a few settings each
+    big = [(64, 64), (128, 64), (128, 128), (256, 256), (512, 256)] if tier == 'quick' else [(64, 64), (256, 64), (256, 256), (1024, 512), (1024, 1024), (2048, 2048), (4096, 4096)]
+    for cap, n in big:
+        for ncols, nphase, nblock, buf, dstmode in ((1, 3, 1, False, 'other'), (2, 0, 2, True, 'src'), (3, 2, 1, False, 'src'), (1, 1, 1, True, 'null'),
+                                                    (2, 4, 3, False, 'other'), (5, 5, 2, True, 'other')):
+            out.append((cap, n, ncols, nphase, nblock, buf, dstmode, 1))
     # degenerate shapes
     for cap in (4,):
         out.append((cap, 0, 2, 3, 1, False, 'other', 1))
@@ -202,6 +208,10 @@ def ext_configs(tier, seed=0):
         N *= 2
     if tier == 'quick':
         out = [c for i, c in enumerate(out) if c[2] <= 8 or (i + seed) % 3 == 0]
+    big = [(64, 64, 128), (64, 64, 256), (128, 128, 128), (256, 128, 512)] if tier == 'quick' else [(64, 64, 256), (256, 256, 1024), (512, 512, 2048), (1024, 1024, 4096)]
+    for capN, N, Next in big:
+        for ncols, nphase, nblock, buf, inplace in ((1, 3, 1, False, True), (2, 2, 1, False, True), (3, 0, 2, True, False), (1, 4, 1, True, True), (2, 1, 3, False, False)):
+            out.append((capN, N, Next, ncols, nphase, nblock, buf, 1, inplace))
     for ncols in (2, 4, 5, 6, 7, 8, 9, 12, 13, 17):
         for capN, N, Next in ((4, 4, 8), (2, 2, 8), (4, 4, 4), (8, 4, 16)):
             for nphase in (1, 2, 3):
